@@ -14,6 +14,7 @@ SPEC = dict(
                   "src/String.cc", "src/MemBuf.cc", "src/store.cc", "src/base/AsyncJob.cc", "src/base/RunnersRegistry.cc", "src/base/InstanceId.cc",
                   "src/SquidConfig.cc", "src/ip/Address.cc", "src/helper/ChildConfig.cc", "compat/xstring.cc"],
     unit_flags={"verif:harness/C57_rebuild.cc": ["-fno-access-control"], "compat/xstring.cc": ["-Dxstrdup=vf_unused_squid_xstrdup"]},
+    native_libs=["-latomic"],   # __atomic_is_lock_free (IdSet constructor) for the native replay build
     entries=dict(
         quick=[_e("c57_2slots", "db of N=2 slots / 2 entries, 2 candidate keys (different anchors)" + _full, _r),
                _e("c57_3slots_sane", "db of N=3 slots / 3 entries, 2 candidate keys (different anchors)" + _sane, _r)],
